@@ -49,7 +49,7 @@ def model_check(wd, tier, mc_stats=None, variants=True):
               "transitions": r["generated"] or 0, "depth": r["depth"], "seconds": r["seconds"], "ok": r["ok"]}
         stats.append(st)
         if not r["ok"]:
-            problems.append("V2Store %s: %s (see %s)" % (st["instance"], r["errors"][:2] or r["fatal"], r["out"]))
+            problems.append("V2Store %s: rc=%s after %ss %s (see %s)" % (st["instance"], r.get("rc"), r["seconds"], r["errors"][:2] or r["fatal"], r["out"]))
     sens = {}
     for variant in (VARIANTS if variants else ()):
         # (the track id and the entity id of a membership only differ after the second track was added first: 5 calls)
@@ -85,6 +85,7 @@ def run_v1(wd, tag, c, workers=8, timeout=1500, xmx="12g"):
     r = vlib.parse_tlc(outp)
     r["seconds"] = round(time.time() - t0, 1)
     r["out"] = outp
+    r["rc"] = rc
     return r
 
 
@@ -99,7 +100,7 @@ def model_check_v1(wd, tier, mc_stats=None, variants=True):
               "transitions": r["generated"] or 0, "depth": r["depth"], "seconds": r["seconds"], "ok": r["ok"]}
         stats.append(st)
         if not r["ok"]:
-            problems.append("V1Store %s: %s (see %s)" % (st["instance"], r["errors"][:2] or r["fatal"], r["out"]))
+            problems.append("V1Store %s: rc=%s after %ss %s (see %s)" % (st["instance"], r.get("rc"), r["seconds"], r["errors"][:2] or r["fatal"], r["out"]))
     sens = {}
     for variant in (V1_VARIANTS if variants else ()):
         r = run_v1(wd, "v1store_" + variant, consts_v1(variant, maxc=3, maxt=2, calls=4), timeout=900)
